@@ -441,7 +441,7 @@ func c13RunTrees(ctx *Ctx, res *Result, rng *Rng) {
 		return
 	}
 	// (b) seeded random trees of 3-5 leaves; leaves mostly from all patterns of <= 4 bytes over {a b *}
-	n := 3000
+	n := 1500
 	if ctx.Tier == "thorough" {
 		n = 120000
 	}
